@@ -80,6 +80,19 @@ pub fn scalar_guard(value: &f64, cell_reference: CellReferenceIndex, cell: Cell)
 //@end
 
 
+// numbers read from files: every numeric <v> element of an xlsx sheet goes through parse_cell_number (scan number-writers checks that the
+// three constructors in xlsx/src/import take their number from it), which answers a finite number whatever the text is
+#[verifier::external_body]
+pub fn shim_parse_f64_result(s: &str) -> (r: Result<f64, ()>) { s.parse::<f64>().map_err(|_| ()) }
+//@fn xlsx/src/import/worksheets.rs parse_cell_number
+//@spec
+    ensures finite(r)
+//@rewrite `-> f64 {` => `-> (r: f64) {`
+//@rewrite* `cell_value.unwrap_or("0").parse::<f64>()` => `shim_parse_f64_result(cell_value.unwrap_or("0"))`
+//@before `match `
+    assume(finite(0.0f64));  // the literal 0.0 is finite
+//@end
+
 // user/API numeric input: Worksheet::set_cell_with_number is the single place a number cell is written (scan number-writers).
 // The cell store accepts a numeric cell only if it is finite (precondition of the stubbed update_cell).
 #[verifier::external_body] pub struct Worksheet { _o: u8 }
